@@ -98,6 +98,12 @@ theorem C38_static_request_static_only (ds : DistSem) (p : Prog) (k : KeyPath) (
   cases p <;> simp [staticRequest] at h
   exact ⟨_, rfl⟩
 
+/-- `DiffAnnotate` with identity maps is its inner request. -/
+theorem C38_diff_annotate_identity (edit : Val → Except Err Res) (a : Val) : diffAnnotate id id edit a = edit a := by
+  unfold diffAnnotate
+  show Except.map id (edit a) = edit a
+  cases edit a <;> rfl
+
 /-- `simulate` constrains nothing: its weight is 0 (so `propose`'s score is the whole score). -/
 theorem C38_simulate_weight (ds : DistSem) (p : Prog) (i : In) (r : Res) (h : run ds .sim p i = .ok r) : r.w = 0 :=
   sim_w ds p i r h
